@@ -144,6 +144,10 @@ def run_case(case, ctx):
         return
     except RecursionError:
         return
+    if hash(src) % 9 == 0:
+        from lib import gram
+        gram.earlier_call(ctx.P, gram.Cyc(hash(src) & 0xffff))       # whatever the parser served before must not change what a literal denotes
+        ctx.count('cases_preceded_by_an_arbitrary_earlier_call')
     try:
         got = ctx.P.eval(src, {}, None, 10 ** 5)
         got_err = None
